@@ -2,8 +2,8 @@
 # usage: tryseed.sh <seed name e.g. C06-a> [PID ...]  - run checks against a scratch copy of /repo with the seeded patch
 # (own build tree under /tmp so that concurrent checks of /repo are not disturbed; removed afterwards)
 S=$1; shift
-T=/tmp/try_$S
-B=/tmp/try_${S}_build
+T=/tmp/try_${S}_$$
+B=/tmp/try_${S}_$$_build
 rm -rf $T $B; rsync -a --exclude .git /repo/ $T/ && (cd $T && patch -p1 -s < /verif/seeded/$S/patch.diff) || exit 2
 mkdir -p $B; rsync -a --exclude cases --exclude driver --exclude replay /verif/build/coq $B/ 2>/dev/null
 for P in "$@"; do (cd /verif && VERIF_REPO=$T VERIF_BUILD=$B VERIF_JOBS=${VERIF_JOBS:-8} ./check $P | grep -v "^KNOWN-FINDING" | tail -4 | cut -c1-600); done
